@@ -14,6 +14,8 @@ SCH_NOTE = ("Trusted base: TLC 1.8, spec/SchProps.tla / LblProps.tla, the virtua
             "Cron schedules in C15 scenarios use minute-field patterns only (calendar semantics are C13's subject); listing latency is not varied.")
 PM_NOTE = ("Trusted base: TLC 1.8, spec/PmProps.tla, the fakes of harness/pm_driver.py (their OS contract: polling/joining a dead child reaps it, os.kill on a reaped pid "
            "raises ProcessLookupError). Real processes and signals are not used; the file watcher thread is replaced by calling schedule_workers_reload.")
+PAR_NOTE = ("Trusted base: TLC 1.8, spec/Params.tla, harness/par_driver.py (exec-generated task functions reporting locals(); 'converted' defined by pydantic.TypeAdapter). "
+            "The case analysis (which parameter's annotation is applied to which argument) is enumerated exhaustively; concrete values per class and JSON value fidelity are sampled.")
 CHECKS = {
  "C01": ("Receiver.tla model-checked (all interleavings of prefetcher/runner/look-ahead fetch/callbacks, every stop instant) + clauses C01_* of RxProps evaluated by TLC on every prefix of traces recorded from the real Receiver.listen(); conformance of those traces to the model", "5/C01"),
  "C02": ("pipeline model (one action per real suspension) model-checked for 3 ack types x sync/async ack x outcomes x backend failure; clauses C02_* judged on every prefix (= crash point) of real traces", "5/C02"),
@@ -23,6 +25,7 @@ CHECKS = {
  "C06": ("shared dependency-context dict modelled explicitly (sub-context capture time); C06_OwnContext/ResultBinding on real overlapping executions with un-cached/nested/suspending dependencies", "5/C06"),
  "C07": ("outcome x timeout x backend-failure pipeline model; C07_* clauses compare the stored result with the scripted outcome on real traces", "5/C07"),
  "C10": ("execution side: hook order as the straight-line pipeline program of Receiver.tla, C10_ExecOrder/HookOnce/Complete per message on real traces with generated middleware stacks; send side: pre_send -> kick -> post_send sequence of Client.tla, C10_SendOrder/SendComplete on real kiq() calls incl. failing kick and retry re-sends", "5/C10"),
+ "C08": ("parse_params' signature walk transcribed as a decision table with its running index (Params.tla); TLC enumerates every legal signature (<= 3-4 parameters) x every legal positional/keyword split and checks the binding law; the same cases, concretised with seeded values per class, run through the real kicker -> formatter -> Receiver and each recorded call is judged by TLC", "5/C08"),
  "C09": ("object-identity model of task/kicker label dicts + typed label transfer over first delivery / retry / requeue (Client.tla) model-checked over call histories; ClProps clauses evaluated by TLC on traces of the real kicker/receiver/retry middleware for a pool of 40 extreme concrete values x 2 serializers", "5/C09"),
  "C11": ("retry state machine (attempt counter travelling as a typed label) model-checked for max_retries 0..6 x flag encodings x no_result_on_retry x all outcome sequences; clauses C11_* on real traces through a real encode/decode cycle per attempt", "5/C11"),
  "C13": ("calendar + cron matcher + zone offset lookup transcribed into integer TLA+ (Cron.tla), its arithmetic model-checked day by day 1970-2100; every recorded call of the real get_task_delay under a controlled clock judged by TLC (minute-exhaustive over DST/month-end/leap days, random instants 2015-2035, grammar-generated expressions, timedelta grid +-26h, 14 IANA zones)", "5/C13"),
@@ -57,7 +60,7 @@ def main():
             "replay_cmd_template": f"./check {pid} --replay {{path}}",
             "engine": "tlc-model+trace",
             "level_claimed": {"category": "model_checking", "text": text, "design_ref": ref},
-            "level_note": RX_NOTE if pid in ("C01","C02","C03","C04","C05","C06","C07","C10","C12") else (CALC_NOTE if pid in ("C13","C14") else (SCH_NOTE if pid in ("C15","C16") else (PM_NOTE if pid in ("C17","C18") else CL_NOTE))),
+            "level_note": RX_NOTE if pid in ("C01","C02","C03","C04","C05","C06","C07","C10","C12") else (CALC_NOTE if pid in ("C13","C14") else (SCH_NOTE if pid in ("C15","C16") else (PM_NOTE if pid in ("C17","C18") else (PAR_NOTE if pid == "C08" else CL_NOTE)))),
             "technique": "explicit TLA+ spec checked by TLC; verdict = spec property clauses evaluated by TLC on traces recorded from the real code; trace conformance to the spec",
         })
     man = {
